@@ -450,6 +450,36 @@ LeaveFx(S, s, how, reason) ==
   IN Emit(Sh, s, [Base EXCEPT !.k = "CLOSED", !.t = S.now])
 
 \* --------------------------------------------------------------------------
+\* authorizer gate (C10).  cfg.authz = sequence of rules [mt, who, dec]; the first
+\* rule whose message type and sender class match decides; no rule = allow.
+\* Local sessions are not subject to authorization unless cfg.lauthz.
+WhoMatches(S, s, who) ==
+  CASE who = "any"    -> TRUE
+    [] who = "local"  -> S.sess[s].local
+    [] who = "remote" -> ~S.sess[s].local
+    [] OTHER          -> Attr(S, s, "authrole") = who
+Decision(S, s, mt) ==
+  IF S.cfg.authz = <<>> \/ (S.sess[s].local /\ ~S.cfg.lauthz) THEN "allow"
+  ELSE LET hits == {i \in DOMAIN S.cfg.authz : S.cfg.authz[i].mt = mt /\ WhoMatches(S, s, S.cfg.authz[i].who)}
+       IN IF hits = {} THEN "allow" ELSE S.cfg.authz[CHOOSE i \in hits : \A j \in hits : i <= j].dec
+
+\* message type of an input for the authorizer; "" = not subject to authorization
+MsgType(i) ==
+  CASE i.op = "subscribe" -> "SUBSCRIBE" [] i.op = "unsubscribe" -> "UNSUBSCRIBE" [] i.op = "publish" -> "PUBLISH"
+    [] i.op = "register" -> "REGISTER" [] i.op = "unregister" -> "UNREGISTER" [] i.op \in {"call", "metacall"} -> "CALL"
+    [] i.op = "cancel" -> "CANCEL" [] i.op = "yield" -> "YIELD" [] OTHER -> ""
+TypeCode(mt) ==
+  CASE mt = "SUBSCRIBE" -> T_SUBSCRIBE [] mt = "UNSUBSCRIBE" -> T_UNSUBSCRIBE [] mt = "PUBLISH" -> T_PUBLISH
+    [] mt = "REGISTER" -> T_REGISTER [] mt = "UNREGISTER" -> T_UNREGISTER [] mt = "CALL" -> T_CALL
+    [] mt = "CANCEL" -> T_CANCEL [] OTHER -> T_YIELD
+
+\* a refused request changes nothing and is answered by exactly one ERROR of the
+\* request's type and id (an unacknowledged PUBLISH by nothing)
+RefuseFx(S, s, type, req, dec, silent) ==
+  IF silent THEN S
+  ELSE Emit(S, s, ErrorMsg(type, req, IF dec = "fail" THEN ErrAuthzFailed ELSE ErrNotAuthorized, S))
+
+\* --------------------------------------------------------------------------
 \* meta API: every procedure is a view of (or an operation on) the current state
 RECURSIVE Str(_)
 Str(cs) == IF cs = <<>> THEN "" ELSE cs[1] \o Str(Tail(cs))
@@ -574,7 +604,8 @@ MetaCallFx(S, s, req, i, hp, pick) ==
 
 \* --------------------------------------------------------------------------
 \* hcfg: sequence of [u, m, n] (topic, match policy, limit); users: sequence of [id, role]
-InitCfg == [strict |-> FALSE, disclose |-> FALSE, metakill |-> TRUE, hcfg |-> <<>>, users |-> <<>>]
+InitCfg == [strict |-> FALSE, disclose |-> FALSE, metakill |-> TRUE, hcfg |-> <<>>, users |-> <<>>,
+            authz |-> <<>>, lauthz |-> FALSE]
 
 \* the state of a freshly started realm with configuration c
 StateOf(c) ==
